@@ -428,7 +428,7 @@ pub fn generate(seed: u64, thorough: bool) -> Vec<String> {
         }
         // random longer texts: junk, several comments, unterminated comment, other line breaks
         let mut big = alpha.clone();
-        big.extend([10u32, 13, 0xe9, 0x10FFFF, 0x20]);
+        big.extend([10u32, 13, 0xe9, 0x10FFFE, 0x20]);
         for _ in 0..(per_inst / 3) {
             let n = rng.range(0, 14);
             let mut t: Vec<u32> = vec![];
@@ -443,6 +443,15 @@ pub fn generate(seed: u64, thorough: bool) -> Vec<String> {
         }
         for t in texts {
             out.push(blk_line(&r, &t));
+        }
+        // F19 (scnr2: U+10FFFF is in no character class): a few dedicated cases on correct patterns only
+        if ["hash", "pascal", "braces2", "pyquote"].contains(&i.full.as_str()) {
+            for body in [vec![0x10FFFFu32], vec!['x' as u32, 0x10FFFF, 'x' as u32]] {
+                let mut t = r.s.clone();
+                t.extend(&body);
+                t.extend(&r.e);
+                out.push(blk_line(&r, &t));
+            }
         }
     }
     // line comments
